@@ -8,12 +8,15 @@ ASSUMPTIONS = ["system allocator = static pool of 64-byte aligned typed blocks w
                "object system replaced by vp_objstub.h (same algorithm, static tables)", "caller contract: a chunk is released once, by its owner"]
 BOUNDS = {"quick": {"K": 4, "elem_size": [24, 1], "threads": 2, "rounds": 3}, "thorough": {"K": 5, "elem_size": [24, 1, 40, 64]}}
 LINK = ["repo:parsec/class/parsec_lifo.c", "repo:parsec/class/parsec_list.c"]
+# no destructor runs in these scenarios; their bodies are removed because CBMC's type-based candidate set for
+# every void(*)(parsec_object_t*) call contains them and they recurse through parsec_obj_run_destructors
+NODESTRUCT = ["parsec_obj_destruct", "parsec_obj_destruct_and_free", "parsec_arena_destructor", "parsec_obj_run_destructors"]
 def queries(ctx):
     qs = []
     for elem in ((24, 1, 40, 64) if ctx.thorough else (24, 1)):
         for Kk in ((4, 5) if ctx.thorough else (4,)):
             qs.append(Q("seq_e%d_k%d" % (elem, Kk), ["ha.c"] + LINK, defs=["ELEM=%d" % elem, "K=%d" % Kk], unwind=6, object_bits=12, timeout=2400,
-                        units=[U, "parsec/arena.h", "parsec/class/lifo.h"], unwind_fn={"main": Kk + 1},
+                        units=[U, "parsec/arena.h", "parsec/class/lifo.h"], unwind_fn={"main": Kk + 1}, remove_bodies=NODESTRUCT,
                         tiers=("quick", "thorough") if (Kk == 4 and elem in (24, 1)) else ("thorough",),
                         info={"symbolic": ["alignment 2..64", "max_used 0..3/unlimited", "max_cached 0..2/unlimited", "operation kind (alloc 1 / alloc 2 / release) and slot per step"],
                               "enumerated": ["element size"], "bounds": {"K": Kk},
@@ -23,7 +26,7 @@ def queries(ctx):
     for sc, (name, kf) in SC.items():
         units = [U, "parsec/arena.h", "parsec/class/lifo.h"] + (["parsec/mempool.c", "parsec/mempool.h"] if sc == 4 else [])
         for R in ((3, 4) if ctx.thorough else (3,)):
-            qs.append(Q("%s_r%d" % (name, R), [], defs=["SCEN=%d" % sc], engine="S", units=units, kf=kf,
+            qs.append(Q("%s_r%d" % (name, R), [], defs=["SCEN=%d" % sc], engine="S", units=units, kf=kf, remove_bodies=NODESTRUCT,
                         gen=seqir(["hs.c"] + LINK, threads=["thread0", "thread1"], rounds=R, drain=True), unwind=8, timeout=2400, slow=True,
                         tiers=("quick", "thorough") if R == 3 else ("thorough",),
                         info={"symbolic": ["schedule: every SC interleaving with <= %d slots per thread, then drain" % R], "bounds": {"threads": 2, "rounds": R},
